@@ -288,13 +288,15 @@ def emit_case(args):
 
 def decl_case(args):
     """Per-declaration splicer, with and without a competing splicer_code entry."""
-    workdir, ydict, idx_path, key, lang, name, bodyname, compete, base_blocks = args
+    workdir, ydict, idx_path, key, lang, name, bodyname, compete, base_blocks = args[:9]
+    form = args[9] if len(args) > 9 else "list"
     body = BODIES[bodyname]
     y = json.loads(json.dumps(ydict))
     node = y
     for p in idx_path:
         node = node["declarations"][p]
-    node["splicer"] = {key: list(body)}
+    # the documented two spellings: a YAML list of lines, or one block string ("c: |") split at newlines
+    node["splicer"] = {key: list(body) if form == "list" else "".join(ln + "\n" for ln in body)}
     if compete:
         y["splicer_code"] = {lang: nested(name, ["competing_code();"])}
     out, r = gen(workdir, y, {}, [])
@@ -314,7 +316,7 @@ def decl_case(args):
         if hit == 0 and not err:
             err = "block %s not found" % name
     shutil.rmtree(workdir, ignore_errors=True)
-    return (("decl+splicer_code" if compete else "decl"), lang, name, bodyname, err)
+    return (("decl+splicer_code" if compete else "decl" if form == "list" else "decl-block-string"), lang, name, bodyname, err)
 
 
 def two_ways_case(args):
@@ -574,6 +576,9 @@ def run(ctx):
             for compete in (False, True):
                 i += 1
                 djobs.append((os.path.join(basedir, "w%d" % i), ydict, path, key, lang, name, b, compete, base_blocks))
+            if BODIES[b]:
+                i += 1
+                djobs.append((os.path.join(basedir, "w%d" % i), ydict, path, key, lang, name, b, False, base_blocks, "text"))
     # a C-language library: functions that would be bound directly get a wrapper because the user supplied its body
     ydict_c = yaml.safe_load(libs.SMALL_C)
     outc, rc_ = gen(os.path.join(basedir, "base_c"), ydict_c, {}, [])
